@@ -1449,3 +1449,88 @@ Proof.
     + rewrite db_get_set_ttl, db_ttl_set_ttl, N2, andb_false_r, Gk, Tk. reflexivity.
     + rewrite Gk, Tk. reflexivity.
 Qed.
+
+(* ---- "no deadline" is invariant under every step that either does not name the key or is
+        not one of the deadline-changing commands ---- *)
+Lemma upd_ttl_none K T d d' k : db_wf d -> upd K T d d' -> ~ In k K ->
+  db_ttl d k = None -> db_ttl d' k = None.
+Proof.
+  intros W U N E. induction U as [|d' k0 v U IH I|d' k0 U IH I|d' k0 t U IH I|d' k0 U IH I|d' t U IH Lt].
+  - exact E.
+  - rewrite db_ttl_set. exact IH.
+  - rewrite db_ttl_del, IH. destruct (bytes_eqb k k0); reflexivity.
+  - rewrite db_ttl_set_ttl. destruct (bytes_eqb_spec k k0) as [->|Nk]; [contradiction|].
+    rewrite andb_false_r. exact IH.
+  - rewrite db_ttl_del_ttl, IH. destruct (bytes_eqb k k0); reflexivity.
+  - rewrite db_ttl_purge by (eapply upd_wf; eassumption). rewrite IH.
+    destruct (expired d' t k); reflexivity.
+Qed.
+
+Definition leaves_deadlines (k : bytes) (s : step) : Prop :=
+  ~ names_key k s \/ changes_ttl (cmd_name (s_args s)) = false.
+
+Lemma exec_ttl_none d s k : db_wf d -> leaves_deadlines k s -> db_ttl d k = None ->
+  db_ttl (snd (exec d (s_now s) (s_nowms s) (s_args s) (s_hint s))) k = None.
+Proof.
+  intros W [N|C] E.
+  - eapply upd_ttl_none; [exact W| |exact N|exact E].
+    apply (exec_upd d (s_now s) (s_nowms s) (s_args s) (s_hint s) (step_end (s_now s) (s_nowms s)));
+      unfold step_end; lia.
+  - set (d' := snd (exec d (s_now s) (s_nowms s) (s_args s) (s_hint s))).
+    destruct (db_get d' k) as [v'|] eqn:G.
+    + assert (R : raw_view d' k = Some (v', db_ttl d' k)) by (unfold raw_view; rewrite G; reflexivity).
+      rewrite (exec_keeps_deadlines d _ _ _ _ k v' (db_ttl d' k) W C R).
+      unfold view, deadline_of, expired. rewrite E. destruct (db_get d k); reflexivity.
+    + apply wf_ttl_none; [apply exec_wf; exact W|exact G].
+Qed.
+
+Theorem run_ttl_none p k : forall d, db_wf d -> Forall (leaves_deadlines k) p ->
+  db_ttl d k = None -> db_ttl (snd (run d p)) k = None.
+Proof.
+  induction p as [|s r IH]; intros d W L E; [exact E|].
+  rewrite run_cons. cbn [snd]. inversion L; subst.
+  apply IH; [apply exec_wf; exact W|assumption|apply exec_ttl_none; assumption].
+Qed.
+
+(* ---- nondecreasing clocks ---- *)
+Fixpoint clocks_nondecreasing (p : list step) : Prop :=
+  match p with
+  | s1 :: ((s2 :: _) as r) => s_now s1 <= s_now s2 /\ clocks_nondecreasing r
+  | _ => True
+  end.
+
+Lemma nondecreasing_from t p : clocks_nondecreasing p ->
+  match p with s :: _ => t <= s_now s | [] => True end ->
+  Forall (fun s => t <= s_now s) p.
+Proof.
+  induction p as [|s r IH]; intros N H; [constructor|].
+  constructor; [exact H|]. destruct r as [|s2 r2]; [constructor|].
+  destruct N as [L N]. apply IH; [exact N|lia].
+Qed.
+
+Lemma nondecreasing_app_r p q : clocks_nondecreasing (p ++ q) -> clocks_nondecreasing q.
+Proof.
+  induction p as [|s r IH]; [trivial|]. intros N. apply IH.
+  cbn in N. destruct (r ++ q); [exact I|apply N].
+Qed.
+
+(* Once the clock has reached the deadline of k, the rest of any program with nondecreasing
+   clocks runs exactly as if k had been deleted: same replies, same views afterwards. *)
+Theorem run_expired_as_deleted d k t p : db_wf d -> db_ttl d k = Some t ->
+  clocks_nondecreasing p -> match p with s :: _ => t <= s_now s | [] => True end ->
+  replies_rel p (fst (run d p)) (fst (run (db_del d k) p)) /\
+  veq_from t (snd (run d p)) (snd (run (db_del d k) p)).
+Proof.
+  intros W E N H. apply run_veq; [exact W|apply db_wf_del; exact W| |].
+  - apply veq_from_del_expired; assumption.
+  - apply nondecreasing_from; assumption.
+Qed.
+
+(* ... and while no command names k, it stays invisible *)
+Theorem run_expired_stays_invisible d k t p now : db_wf d -> db_ttl d k = Some t ->
+  Forall (fun s => ~ names_key k s) p ->
+  Forall (fun s => step_end (s_now s) (s_nowms s) <= now) p -> t <= now ->
+  view (snd (run d p)) now k = None.
+Proof.
+  intros W E N L Lt. rewrite (run_frame p k now d W N L). eapply view_dead; eassumption.
+Qed.
